@@ -138,6 +138,10 @@ def deep_trees(names=('x', 'y', 'z')):
         out.append((o1, (o2, (o3, x, y), z), x))
         out.append((o1, x, (o2, y, (o3, z, x))))
         out.append((o1, (o2, x, (o3, y, z)), y))
+    for o1 in ops:
+        for o2 in ('AND', 'OR', 'IMPLIES'):
+            out.append((o1, (o2, ('NOT', x, None), y), z))
+            out.append((o1, z, (o2, ('NOT', x, None), y)))
     # if-then-else shapes (a genuine xor expansion and near misses)
     nx, ny = ('NOT', x, None), ('NOT', y, None)
     out += [('OR', ('AND', x, ny), ('AND', nx, y)), ('OR', ('AND', x, ny), ('AND', nx, z)), ('OR', ('AND', x, ('NOT', z, None)), ('AND', nx, y)),
